@@ -452,6 +452,77 @@ for a, b in cands:
 '''
 
 
+REPLAY_EQQ = """
+segs = lambda: [Line(0j, 4+3j), CubicBezier(4+3j, 6+8j, -2+5j, 1+1j), Arc(1+1j, 2+1j, 30, 0, 1, 3+2j)]
+for (ka, kb) in (({'error': 1e-3}, {}), ({'error': 1e-2, 'min_depth': 2}, {'error': 1e-9}), ({}, {'min_depth': 9})):
+    for first in ('length', 'point', 'none'):
+        p, q = Path(*segs()), Path(*segs())
+        p.length(**ka)
+        if first == 'length': q.length(**kb)
+        elif first == 'point': q.point(0.3)
+        if not (p == q) or (p != q) or not (q == p):
+            REPRODUCED('two paths of equal segments compare unequal after p.length(**%%r) and q.%%s(**%%r)' %% (ka, first, kb))
+        if hash(p) != hash(q):
+            REPRODUCED('two paths of equal segments hash differently after p.length(**%%r) and q.%%s(**%%r)' %% (ka, first, kb))
+"""
+
+_QLEN = z3.Function('SegLengthAtTolerance', z3.IntSort(), z3.RealSort(), z3.RealSort(), z3.RealSort())
+
+
+def fam_eq_after_queries(R, n):
+    """== / != / hash of two Paths built from equal segments must not depend on which length queries (with which tolerances) were
+    made on either of them: the segment length is an uninterpreted function of (segment, error, min_depth), so totals cached
+    under different tolerances differ."""
+    from svgpathtools.path import Path
+    R.bound(segments=n, queries='p.length(error=e1, min_depth=d1); q.length(error=e2, min_depth=d2) | q.point(T) | nothing')
+    R.stub('segment.length -> uninterpreted function of (segment index, error, min_depth)')
+
+    class QSeg:
+        def __init__(self, k, a, b):
+            self.k, self.start, self.end = k, a, b
+
+        def length(self, t0=0, t1=1, error=None, min_depth=None):
+            v = _QLEN(self.k, lift(error if error is not None else 1e-12).e, lift(min_depth if min_depth is not None else 5).e)
+            Ctx.cur.assume(v > 0)
+            return SR(v) * (lift(t1) - lift(t0))
+
+        def point(self, t):
+            return self.start + (self.end - self.start) * t
+
+        def __eq__(self, o):
+            return isinstance(o, QSeg) and self.k == o.k
+
+        def __ne__(self, o):
+            return not self == o
+
+        def __hash__(self):
+            return hash(self.k)
+
+    for second in ('length', 'point', 'none'):
+        def run():
+            pts = [symc('v%d' % i) for i in range(n + 1)]
+            e1, d1, e2, d2 = symr('e1'), symr('d1'), symr('e2'), symr('d2')
+            Ctx.cur.assume(e1.e > 0, e2.e > 0, d1.e >= 0, d2.e >= 0)
+            p = Path(*[QSeg(i, pts[i], pts[i + 1]) for i in range(n)])
+            q = Path(*[QSeg(i, pts[i], pts[i + 1]) for i in range(n)])
+            p.length(error=e1, min_depth=d1)
+            if second == 'length':
+                q.length(error=e2, min_depth=d2)
+            elif second == 'point':
+                q.point(lift(0.3))
+            return (p == q), (p != q), (q == p), hash(p) == hash(q)
+
+        for ctx, (kind, val) in explore(run, maxpaths=400, logic=None):
+            R.path(ctx)
+            if kind != 'ok':
+                R.unexpected(ctx, 'unexpected %s %r' % (kind, val))
+                continue
+            eq, ne, eq2, hh = val
+            cex = lambda m: {'cls': 'Path equality depends on earlier length queries', 'inputs': {'second_query': second}, 'script': REPLAY_EQQ % ()}
+            R.ob('eq-after-%s' % second, ctx, z3.And(zbool(eq), z3.Not(zbool(ne)), zbool(eq2), zbool(hh)), cex=cex)
+        R.sample({'second_query': second, 'segments': n})
+
+
 def families(tier):
     M = 'vf.props.c16'
     fams = []
@@ -472,4 +543,6 @@ def families(tier):
         for qa in (True, False):
             fams.append(('segcache-deg%d-%s' % (deg, 'quad' if qa else 'noquad'), M, 'fam_segment_cache', {'deg': deg, 'quad_available': qa}))
     fams.append(('eq-hash', M, 'fam_eq_hash', {}))
+    for n in (1, 2):
+        fams.append(('eq-after-queries-n%d' % n, M, 'fam_eq_after_queries', {'n': n}))
     return fams
